@@ -20,6 +20,8 @@ def run(rep: Report, tier: str, only=None) -> None:
 		'the stub serializer stores origin + flattened attrs like ReflectionSerializer.serialize and restores attrs through the real _deserialize_attrs',
 		'declaration orders in which a class refers (own attributes = template types) to a class declared after itself or after a signature that mentions it are excluded as unreachable',
 	]
-	rep.outside = ['node / decl / via restoration through Entrypoints', 'real traits', 'cross-module origins']
+	rep.outside = ['programs beyond the two of the closed pipeline obligation', 'symbol tables larger than the stub family']
 	rep.run_jobs(jobs)
+	if not only or 'O4' in only:
+		rep.run_closed('O4.pipeline', 'harness.c14_pipeline', 'pipeline_closed', {}, 'two generated multi-module programs (generic class, 13-attribute signature, nested type arguments, enum, inheritance, three-module chain) through the real pipeline: export each module, import into a table holding only the others, compare symbol by symbol, completion mark, second import (closed)')
 	rep.check_recorded()
